@@ -8,8 +8,11 @@ def cubes_status(tier):
     if tier == "thorough":
         out += [dict(listing=[[0, 1], [1, 2]], nfiles=3, cls=c, shallow=s, _w=4) for c in CLS for s in (True, False)]
         out += [dict(listing=[[0, 1]], nfiles=2, cls=a, cls_b=b, shallow=True) for a in CLS for b in CLS if a != b]
+        out += [dict(listing=[[0, 1]], nfiles=2, cls=c, shallow=True, zero=z, lookup=m, _w=3) for c in ("base", "remote") for z in (False, True)
+                for m in ("exists", "traverse")]
     else:
         out += [dict(listing=[[0, 1]], nfiles=2, cls="local", cls_b="remote", shallow=True)]
+        out += [dict(listing=[[0, 1]], nfiles=2, cls="remote", shallow=True, zero=True, lookup="exists", _w=2)]
     return out
 
 
@@ -33,8 +36,9 @@ SPEC = Spec(
     harnesses=[
         H("status", "vf.harness.c12_status", "h_status", cubes_status, timeout={"quick": 300, "thorough": 900}, real=True,
           bounds={"quick": "2 files + 1 directory object: contents of two stores and the queried id set symbolic; 3 store kinds (exists-per-object, "
-                           "list/traverse) x shallow/expanded; compare_status four-way partition against both listings",
-                  "thorough": "3 files + 2 directory objects, mixed store kinds"},
+                           "list/traverse) x shallow/expanded; compare_status four-way partition against both listings; one cube with the remote-size heuristics scaled so that "
+                           "the listing-plus-per-object strategy runs (an object in the estimated '00' prefix)",
+                  "thorough": "3 files + 2 directory objects, mixed store kinds, forced prefix-by-prefix traversal"},
           smoke=[{"args": S1, "cube": {"cls": c, "shallow": True}} for c in CLS],
           encodes="status.status/compare_status, ObjectDB.oids_exist/list_oids_exists/_estimate_remote_size/_list_oids_traverse/_list_oids, "
                   "LocalHashFileDB.oids_exist/check, Tree.load", stubs=("model filesystems", "progress silenced")),
@@ -48,7 +52,7 @@ SPEC = Spec(
           stubs=("diskcache Index -> dict with transact()", "model filesystems", "upload faults at generic.transfer")),
     ],
     assumptions=["objects in local stores are intact (C07 covers tampering)", "diskcache/SQLite persist the index mapping faithfully"],
-    outside=["index persistence in SQLite", "histories longer than 3 steps", "stores large enough for the prefix-parallel traversal path"],
+    outside=["index persistence in SQLite", "histories longer than 3 steps", "real remote sizes (the strategy thresholds are scaled down instead)"],
     explanation="CrossHair runs the real status/compare_status/transfer code on model stores with store contents, query sets, upload failures and "
                 "the externally deleted object symbolic; after every step the index contents are compared with a direct listing of the store.",
 )
